@@ -580,9 +580,10 @@ example :
 `untranslatable …`, which no proof below survives).  Each theorem: for every configuration, every state and every
 list of callbacks already emitted, the translated Python method computes exactly the state, the callback stream and
 the return value of `step` for that operation.  Hence every theorem above about the nine mutators is a theorem about
-the translated source.  The read-only accessors (`get_status`, `get_statistics`, `get_age`, `is_active`,
-`is_operational`) are NOT translated: `isActive`/`isOperational`/`timeRemaining`/`opsRemaining` are hand-written and
-tied to the code by the differential correspondence only (their lock shape is extracted by E3).
+the translated source.  Of the read-only accessors the two predicates `is_active` / `is_operational` are translated as well
+(`c09_translation_agrees_is_active`, `…_is_operational`); `get_status`, `get_statistics`, `get_age` are NOT:
+`timeRemaining`/`opsRemaining` are hand-written and tied to the code by the differential correspondence only (their lock
+shape is extracted by E3).
 All translated definitions (the nine methods and whatever helpers they call, under whatever name) are `@[simp]`; the
 proofs name none of them except the method in the statement, and normalise both sides to decision trees over the same
 atoms (`cases` on the phase / the optionals, `simp`, `split`, `omega`), so behaviour-preserving refactorings inside the
@@ -632,6 +633,18 @@ theorem c09_translation_agrees_terminate (cfg : Cfg) (s : State) (evs : List Ev)
 theorem c09_translation_agrees_reset (cfg : Cfg) (s : State) (evs : List Ev) : Tr.reset cfg s evs = stepOut cfg s evs .reset := by
   obtain ⟨ph, len, errs, ops, ren, rsn, st0, la, now, evn⟩ := s
   cases ph <;> simp [stepOut, step, reset] <;> (repeat' split) <;> (try simp_all) <;> (try omega)
+
+/-- the two predicate accessors are translated too: `is_active()` / `is_operational()` change nothing, call nothing back
+    and return exactly `isActive` / `isOperational` of the model -/
+theorem c09_translation_agrees_is_active (cfg : Cfg) (s : State) (evs : List Ev) :
+    Tr.is_active cfg s evs = (s, evs, isActive s) := by
+  obtain ⟨ph, len, errs, ops, ren, rsn, st0, la, now, evn⟩ := s
+  cases ph <;> simp [isActive] <;> (repeat' split) <;> (try simp_all)
+
+theorem c09_translation_agrees_is_operational (cfg : Cfg) (s : State) (evs : List Ev) :
+    Tr.is_operational cfg s evs = (s, evs, isOperational s) := by
+  obtain ⟨ph, len, errs, ops, ren, rsn, st0, la, now, evn⟩ := s
+  cases ph <;> simp [isOperational] <;> (repeat' split) <;> (try simp_all)
 
 /-! ## Non-vacuity: concrete histories meeting the hypotheses -/
 
